@@ -1,6 +1,7 @@
 (* C17 — bit-field aliases of the a64 assembler (asmjit/arm/a64assembler.cpp, encodings BaseBfx / BaseBfi / BaseBfc /
    BaseBfm and the immediate forms of LSL / LSR / ASR in BaseShift): how (lsb, width) or a shift amount becomes the
-   (immr, imms) pair of UBFM/SBFM/BFM.  No proofs in this file.  Operand values are uint64 (0 <= . < 2^64). *)
+   (immr, imms) pair of UBFM/SBFM/BFM, as of /repo commit 638bd9f (operand test `width > op_size - lsb` in all
+   three lsb/width encodings).  No proofs in this file.  Operand values are uint64 (0 <= . < 2^64). *)
 From Coq Require Import ZArith Bool.
 Local Open Scope Z_scope.
 
@@ -11,11 +12,11 @@ Definition neg32_and (x size : Z) : Z := Z.land ((2 ^ 32 - x mod 2 ^ 32) mod 2 ^
 Definition encode_bitfield (k : bf_kind) (size a b : Z) : option (Z * Z) :=   (* (immr, imms) *)
   match k with
   | Bfx =>
-    if (size <=? a) || (b =? 0) || (size <? b) then None else
+    if (size <=? a) || (b =? 0) || (size - a <? b) then None else
     let imms := a + b - 1 in
     if size <=? imms then None else Some (a, imms)
   | Bfi =>
-    if (size <=? a) || (b =? 0) || (size <? b) then None else Some (neg32_and a size, b - 1)
+    if (size <=? a) || (b =? 0) || (size - a <? b) then None else Some (neg32_and a size, b - 1)
   | Bfm => if size <=? Z.lor a b then None else Some (a, b)
   | ShLsl => if size <=? a then None else Some (neg32_and a size, size - 1 - a)
   | ShLsr => if size <=? a then None else Some (a, size - 1)
